@@ -22,7 +22,9 @@ IsH2(o) == o.opened /\ o.cfg.carrier \in {"h2", "h2prior"}
 
 Clauses(o, ev, o2) ==
     CASE ev.e = "handler_done" ->
-            IF ev.exc \in {"none", "cancelled"} THEN <<>> ELSE <<F("internal-error", ev.exc)>>
+            \* (context: the unusual input the script is about when there is one, else the exception)
+            IF ev.exc \in {"none", "cancelled"} THEN <<>>
+            ELSE <<F("internal-error", IF o.unusual # {} THEN CHOOSE u \in o.unusual : TRUE ELSE ev.exc)>>
       [] ev.e = "loop_error" -> <<F("internal-error", "loop:" \o ev.exc)>>
       [] ev.e = "wire" /\ ev.kind = "error" -> <<F("server-output-malformed", o.cfg.carrier)>>
       [] ev.e = "quiescent" ->
